@@ -954,6 +954,16 @@ def _f118(vio):
     return any(bool(f) for f in feats)
 
 
+@mechanism("F119-missing-then-advanced-invalid")
+def _f119(vio):
+    det = vio.get("detail") or {}
+    op = det.get("op") or {}
+    items = op.get("items") or []
+    ts = [it.get("t") for it in items if isinstance(it, dict)]
+    return vio.get("kind") == "invalid-result" and op.get("op") == "getitem" and "content" in ts and \
+        "array" in ts[ts.index("content") + 1:] and "index[i] >= len(content)" in str(det.get("validityerror", ""))
+
+
 @mechanism("F10-reduce-nonlocal")
 def _f10(vio):
     rep = _report(vio)
